@@ -76,3 +76,58 @@ Theorem C13_rejected_r_not_done :
 Proof. exact (@C13_rejected_r_not_done). Qed.
 Print Assumptions C13_rejected_r_not_done.
 
+From MC Require Import Model.Decorator Proofs.DecoratorLegs.
+
+(* ---- C13 on the decorator: no answer panics sync_d; after a rejected answer (transport error, non-200,
+   429, a body decode_decorator refuses) no further call is made and the sync fails ---- *)
+Theorem C13d_rejected_no_call :
+  forall (c : dcfg) (k : dcache),
+    hist_post C13d_phi (fun (h : hist) (r : sync_result) => C13d_post h r /\ r <> SPanic) [] (sync_d c k).
+Proof. exact (@DecoratorLegs.C13d_rejected_no_call). Qed.
+Print Assumptions C13d_rejected_no_call.
+
+Theorem C13d_no_panic :
+  forall (c : dcfg) (k : dcache) (e : env), result_of (sync_d c k) e <> SPanic.
+Proof. exact (@DecoratorLegs.C13d_no_panic). Qed.
+Print Assumptions C13d_no_panic.
+
+Theorem C13d_rejected_is_last :
+  forall (c : dcfg) (k : dcache) (e : env) (hk : hook_kind) (body : json) (a : answer),
+    In (CHook hk body, a) (trace_of (sync_d c k) e) ->
+    hook_rejected_d a = true ->
+    (exists before : list (call * answer), trace_of (sync_d c k) e = (before ++ [(CHook hk body, a)])%list) /\
+    result_of (sync_d c k) e = SErr.
+Proof. exact (@DecoratorLegs.C13d_rejected_is_last). Qed.
+Print Assumptions C13d_rejected_is_last.
+
+Theorem C13d_rejected_cases :
+  forall (c : dcfg) (k : dcache) (e : env) (hk : hook_kind) (body : json) (a : answer),
+    In (CHook hk body, a) (trace_of (sync_d c k) e) ->
+    (a = AHookErr \/ (exists n, a = AHook429 n) \/ (exists o, a = AObj o) \/ (exists x, a = AFail x) \/
+     (exists b, a = AHook b /\ decode_decorator b = None)) ->
+    (exists before : list (call * answer), trace_of (sync_d c k) e = (before ++ [(CHook hk body, a)])%list) /\
+    result_of (sync_d c k) e = SErr.
+Proof. exact (@DecoratorLegs.C13d_rejected_cases). Qed.
+Print Assumptions C13d_rejected_cases.
+
+(* thirteen malformed answers (non-JSON / transport error, 429, non-object and kind-less attachment
+   entries, a non-array attachments field, wrong types in labels / annotations / status / finalized /
+   resyncAfterSeconds) are rejected, the sync fails and the hook call is its last call *)
+Example C13d_rejected_examples :
+  forallb hook_rejected_d LegsEx.bad_answers = true /\
+  forallb (fun a => let e := LegsEx.env_of LegsEx.alive a in
+                    match result_of (sync_d (LegsEx.cfg false) (LegsEx.cache LegsEx.alive [LegsEx.owned])) e with
+                    | SErr => true | _ => false end &&
+                    match rev (LegsEx.tags (LegsEx.cfg false) (LegsEx.cache LegsEx.alive [LegsEx.owned]) e) with
+                    | "hook:sync" :: _ => true | _ => false end)
+          LegsEx.bad_answers = true.
+Proof. exact (@DecoratorLegs.LegsEx.C13d_rejected_examples). Qed.
+
+(* accepted although odd: a null body, null attachment entries (dropped), null label values (deletions) *)
+Example C13d_accepted_examples :
+  forallb (fun a => negb (hook_rejected_d a) &&
+                    match result_of (sync_d (LegsEx.cfg false) (LegsEx.cache LegsEx.alive [])) (LegsEx.env_of LegsEx.alive a) with
+                    | SDone => true | _ => false end)
+          [AHook JNull; AHook (JObj []); AHook (JObj [("attachments", JArr [JNull; JNull])]);
+           AHook (JObj [("labels", JObj [("gone", JNull)]); ("status", JNull); ("attachments", JNull)])] = true.
+Proof. exact (@DecoratorLegs.LegsEx.C13d_accepted_examples). Qed.
